@@ -166,6 +166,40 @@ def gen_base(rng, feat=None):
     return {"sys": lines, "cb": cb, "preds": preds, "feat": feat, "nprocs": nprocs, "nnodes": nnodes}
 
 
+def gen_crash_base(rng):
+    """crashes with a lot pending: several processes per node, timers re-armed under the same name (also while
+    still pending), messages in both directions; the callback crashes a node after its processes were started"""
+    nnodes = 2
+    nprocs = rng.choice([3, 4])
+    placement = [p % nnodes for p in range(nprocs)]
+    delays = [0.5, 1.0, 2.0]
+    lines = ["NODE 0 0", "NODE 1 0"]
+    for p in range(nprocs):
+        nrows = rng.choice([1, 2])
+        lines.append("PROC %d %d %d 0 0 %d" % (p, placement[p], rng.choice([1, 2, 2]), nrows))
+        for _ in range(nrows):
+            acts = []
+            for _ in range(rng.choice([2, 3, 4])):
+                r = rng.random()
+                if r < 0.45:
+                    acts.append("T %d %d %d" % (rng.randrange(2), f64_bits(rng.choice(delays)), rng.choice([0, 0, 1])))
+                elif r < 0.9:
+                    acts.append("S %d %s" % (rng.randrange(nprocs), gen_msg(rng)))
+                else:
+                    acts.append("C %d" % rng.randrange(2))
+            lines.append("ROW %d %d %s" % (p, len(acts), " ".join(acts)))
+    lines.append("NET 0 0 0 %d %d" % (f64_bits(1.0), f64_bits(1.0)))
+    lines += clock_lines([0.0])
+    cb = []
+    for p in rng.sample(range(nprocs), rng.choice([2, 3])):
+        cb.append("CB LOCAL %d %d %s" % (placement[p], p, gen_msg(rng)))
+    cb.append("CB CRASH %d" % rng.randrange(nnodes))
+    feat = {"timers": True, "override": True, "clock": False, "drop": False, "dupl": False, "corrupt": False, "crash": True,
+            "netops": False, "mf": False, "stateless": False, "crash_rich": True}
+    preds = ["PRED INV NONE", "PRED GOAL NOEVENTS", "PRED PRUNE NONE", "PRED COLLECT NONE"]
+    return {"sys": lines, "cb": cb, "preds": preds, "feat": feat, "nprocs": nprocs, "nnodes": nnodes}
+
+
 def variant(base, sid, strategy, vm, debug=0, repeat=1, depth_prune=None):
     preds = list(base["preds"])
     if base["feat"].get("stateless") and depth_prune is None:
@@ -181,10 +215,15 @@ def variant(base, sid, strategy, vm, debug=0, repeat=1, depth_prune=None):
 def staged(rng, base, sid, strategy, vm, debug=1):
     """stage 1 collects, stage 2 continues from the collected set after a further callback"""
     preds1 = [l for l in base["preds"] if not l.startswith("PRED COLLECT") and not l.startswith("PRED GOAL")]
+    # collect predicates that accept SEVERAL states on one path (start states reachable from one another) as
+    # well as frontiers
     coll = rng.choice(["PRED COLLECT DEPTHEQ %d" % rng.choice([1, 2]),
                        "PRED COLLECT OUTBOXEQ %d 1" % rng.randrange(base["nprocs"]),
-                       "PRED COLLECT NOEVENTS"])
-    goal1 = rng.choice(["PRED GOAL NOEVENTS", "PRED GOAL DEPTHGE %d" % rng.choice([2, 3])])
+                       "PRED COLLECT NOEVENTS",
+                       "PRED COLLECT DEPTHLE %d" % rng.choice([1, 2]),
+                       "PRED COLLECT DEPTHLE %d" % rng.choice([2, 3]),
+                       "PRED COLLECT ALL"])
+    goal1 = rng.choice(["PRED GOAL NOEVENTS", "PRED GOAL DEPTHGE %d" % rng.choice([2, 3]), "PRED GOAL DEPTHGE 3"])
     if base["feat"].get("stateless"):
         preds1 = [l for l in preds1 if not l.startswith("PRED PRUNE")] + ["PRED PRUNE DEPTHGT 5"]
     lines = list(base["sys"]) + preds1 + [coll, goal1] + list(base["cb"])
@@ -192,6 +231,11 @@ def staged(rng, base, sid, strategy, vm, debug=1):
     # stage 2
     lines += ["PRED COLLECT NONE", "PRED GOAL NOEVENTS"]
     crashed = set(l.split()[2] for l in base["cb"] if l.startswith("CB CRASH"))
+    if rng.random() < 0.25:
+        # a crash in the stage-2 callback: the start states then differ only in what the crashed node had done
+        nd = str(rng.randrange(base["nnodes"]))
+        crashed.add(nd)
+        lines.append("CB CRASH %s" % nd)
     if rng.random() < 0.5:
         p = rng.randrange(base["nprocs"])
         node = [l for l in base["sys"] if l.startswith("PROC %d " % p)][0].split()[2]
